@@ -90,6 +90,21 @@ def canonical : OSet → Str → Option Str
   | [], _ => none
   | (l, sp) :: r, k => if l = lower k then some sp else canonical r k
 def lowered (s : OSet) : OSet := s.map fun e => (e.1, e.1)
+
+def step (s : OSet) : SOp → OSet × SRes
+  | .add k => (s.add k, .unit)
+  | .discard k => (s.discard k, .unit)
+  | .remove k => if s.has k then (s.discard k, .unit) else (s, .keyError)
+  | .contains k => (s, .bool (s.has k))
+  | .canonical k => (s, match s.canonical k with | some x => .str x | none => .keyError)
+  | .lower => (s.lowered, .unit)
+
+def run (s : OSet) : List SOp → OSet × List SRes
+  | [] => (s, [])
+  | op :: ops =>
+    let r := step s op
+    let rest := run r.1 ops
+    (rest.1, r.2 :: rest.2)
 end OSet
 
 end Pybtex
